@@ -12,7 +12,9 @@
      M <text>                       marker: a write to the path $VERIF_SHIM_ROOT/../MARK
    Fault injection (E5): $VERIF_SHIM_FAIL = "<n>:<kind>:<substr>[:sticky]" fails the n-th (1-based)
    matching data operation on a path containing <substr>; kind = eio | enospc | short<k> (write k
-   bytes then return k) | fsync (fail fsync/fdatasync with EIO). */
+   bytes then return k) | shorterr<k> (the n-th matching write writes k bytes and returns k, the next
+   matching write fails with ENOSPC — every later one if sticky: a disk that fills up inside a
+   write) | fsync (fail fsync/fdatasync with EIO). */
 #define _GNU_SOURCE
 #include <dlfcn.h>
 #include <errno.h>
@@ -36,7 +38,7 @@ static const char *root = NULL;
 static size_t rootlen = 0;
 static int inited = 0;
 
-static int fail_n = 0, fail_sticky = 0, fail_count = 0, fail_short = -1;
+static int fail_n = 0, fail_sticky = 0, fail_count = 0, fail_short = -1, fail_then_err = 0;
 static char fail_kind[32] = "", fail_sub[256] = "";
 
 static ssize_t (*real_write)(int, const void *, size_t);
@@ -92,7 +94,8 @@ static void init(void) {
       strncpy(fail_kind, p2, sizeof fail_kind - 1);
       strncpy(fail_sub, p3, sizeof fail_sub - 1);
       fail_sticky = p4 && strcmp(p4, "sticky") == 0;
-      if (strncmp(fail_kind, "short", 5) == 0) fail_short = atoi(fail_kind + 5);
+      if (strncmp(fail_kind, "shorterr", 8) == 0) { fail_short = atoi(fail_kind + 8); fail_then_err = 1; }
+      else if (strncmp(fail_kind, "short", 5) == 0) fail_short = atoi(fail_kind + 5);
     }
   }
 }
@@ -118,6 +121,11 @@ static int should_fail(const char *path, int is_sync) {
   int want_sync = strcmp(fail_kind, "fsync") == 0;
   if (want_sync != is_sync) return 0;
   fail_count++;
+  if (fail_then_err) {   /* 1 = short write, 2 = the error that follows it */
+    if (fail_count == fail_n) return 1;
+    if (fail_count == fail_n + 1 || (fail_sticky && fail_count > fail_n)) return 2;
+    return 0;
+  }
   if (fail_count == fail_n || (fail_sticky && fail_count > fail_n)) return 1;
   return 0;
 }
@@ -193,12 +201,17 @@ ssize_t write(int fd, const void *buf, size_t n) {
   if (fd < 0 || fd >= MAXFD || !fdpath[fd]) return real_write(fd, buf, n);
   pthread_mutex_lock(&mu);
   ssize_t r;
+  int sf;
   if (is_mark(fdpath[fd])) {
     logline("M ", 2);
     logline(buf, n);
     r = (ssize_t)n;
-  } else if (should_fail(fdpath[fd], 0)) {
-    if (fail_short >= 0) {
+  } else if ((sf = should_fail(fdpath[fd], 0)) != 0) {
+    if (sf == 2) {
+      errno = ENOSPC;
+      r = -1;
+      logf_("F write fd=%d errno=%d\n", fd, errno);
+    } else if (fail_short >= 0) {
       size_t k = (size_t)fail_short < n ? (size_t)fail_short : n;
       r = k ? real_write(fd, buf, k) : 0;
       if (r > 0) log_write(fd, fdappend[fd] ? -1 : -2, buf, (size_t)r);
